@@ -101,12 +101,16 @@ class Builder:
             for f, v in (ty.get('r') or {}).items():
                 if v is not None:
                     kw[f] = int(v)
+            if ty.get('vals'):
+                kw['values'] = [int(x) for x in ty['vals']]        # (T3 only: the shared PrimTy has `values` on strings only)
             if kw:
                 # customising an integer type resets its max_str_len guard to infinity; declare the guard of the
                 # plain class explicitly so that every generated integer type has the guard the model knows
                 kw['max_str_len'] = cls.Attributes.max_str_len
             return cls(**kw) if kw else cls
         if k == 'bool':
+            if ty.get('vals'):
+                kw['values'] = list(ty['vals'])
             return P.Boolean(**kw) if kw else P.Boolean
         if k == 'str':
             if ty.get('minLen'):
@@ -124,6 +128,8 @@ class Builder:
             # ge / gt / le / lt for these kinds are outside the shared Lean universe (T3 only): {"rng": {"ge": <Val JSON>}}
             for f, fv in (ty.get('rng') or {}).items():
                 kw[f] = self.to_native({'k': k, 'occ': occ()}, fv)
+            if ty.get('vals') and k in ('dec', 'dbl'):
+                kw['values'] = [decimal.Decimal(x) if k == 'dec' else float(x) for x in ty['vals']]
             if k == 'dec' and ty.get('td') is not None:
                 return P.Decimal(ty['td'], ty.get('fd') or 0, **kw)         # total_digits, fraction_digits
             return cls(**kw) if kw else cls
@@ -144,6 +150,10 @@ class Builder:
             return e.customize(**kw) if kw else e
         if k == 'obj':
             c = self.obj_class(ty)
+            if ty.get('nw'):
+                kw['not_wrapped'] = True        # the class is used without its wrapper at this place
+            if ty.get('nofreq'):
+                kw['validate_freq'] = False     # Cls.novalidate_freq()
             return c.customize(**kw) if kw else c
         if k == 'file':
             from spyne.model.binary import File
@@ -738,8 +748,10 @@ def gen_leaf(rng, kind=None, o=None, facets=True):
 class Universe:
     """generated class tree: classes C0.. (flattened fields, bases first), used as object types"""
 
-    def __init__(self, rng, nclasses=4, depth=3, inherit=True, facets=True, rep=True, kinds=None):
+    def __init__(self, rng, nclasses=4, depth=3, inherit=True, facets=True, rep=True, kinds=None, nw_p=0.0, nf_p=0.0):
         self.rng, self.facets, self.rep, self.kinds = rng, facets, rep, kinds
+        self.nw_p, self.nw = nw_p, set()         # classes used with not_wrapped=True everywhere
+        self.nf_p, self.nf = nf_p, set()         # classes used with validate_freq=False everywhere
         self.classes = []       # ClassDef JSON, bases first
         self.by_name = {}
         for i in range(nclasses):
@@ -763,11 +775,20 @@ class Universe:
         cd = {'name': name, 'ns': TNS, 'base': base['name'] if base else None, 'fields': fields}
         self.classes.append(cd)
         self.by_name[name] = cd
+        if self.nw_p and rng.random() < self.nw_p:
+            self.nw.add(name)
+        if self.nf_p and rng.random() < self.nf_p:
+            self.nf.add(name)
         return cd
 
     def obj_ty(self, cd, o=None):
-        return {'k': 'obj', 'name': cd['name'], 'ns': cd['ns'], 'base': cd['base'], 'fields': cd['fields'],
-                'occ': o if o is not None else occ()}
+        t = {'k': 'obj', 'name': cd['name'], 'ns': cd['ns'], 'base': cd['base'], 'fields': cd['fields'],
+             'occ': o if o is not None else occ()}
+        if cd['name'] in getattr(self, 'nw', ()):
+            t['nw'] = True
+        if cd['name'] in getattr(self, 'nf', ()):
+            t['nofreq'] = True
+        return t
 
     def gen_ty(self, depth, o=None, allow_rep=True):
         rng = self.rng
@@ -1119,8 +1140,8 @@ def ref_encode(cfg, t, v, U=None, bytes_keys=False, item=False):
                 # an absent member is left out; a nil one (min_occurs > 0, nillable) is an explicit null
                 if fv is not None or (ft.get('occ') or occ())['min'] > 0:
                     body[ref_key(cfg, n, bytes_keys)] = ref_encode(cfg, ft, fv, U, bytes_keys)
-        if cfg['iw']:
-            return body
+        if cfg['iw'] or cname in cfg.get('nw', ()):
+            return body             # (not_wrapped classes travel without their wrapper)
         return {ref_key(cfg, cname, bytes_keys): body}
     return ref_leaf(cfg, t, v)
 
@@ -1237,7 +1258,7 @@ def ref_decode(cfg, t, d, U=None, item=False):
         return {'l': [ref_decode(cfg, t['elem'], x, U, True) for x in d]}
     if k == 'obj':
         cname, fields = t['name'], t['fields']
-        if not cfg['iw'] and cfg['cas'] != 'list':
+        if not cfg['iw'] and cfg['cas'] != 'list' and cname not in cfg.get('nw', ()):
             if not isinstance(d, dict) or len(d) != 1:
                 raise RefError('wrapper expected')
             (wk, d), = d.items()
@@ -1350,6 +1371,10 @@ class Case:
         return None
 
     def query(self, op, cfg, **kw):
+        if getattr(self.U, 'nf', None) and 'nofreq' not in cfg:
+            cfg = dict(cfg, nofreq=sorted(self.U.nf))
+        if getattr(self.U, 'nw', None) and 'nw' not in cfg:
+            cfg = dict(cfg, nw=sorted(self.U.nw))
         q = {'op': op, 'cfg': cfg, 'reg': self.U.registry()}
         q.update(kw)
         return q
@@ -1360,7 +1385,8 @@ GOOD_FACTS = {'occCount': 'perItem', 'mpNameAnyKey': True, 'nullComplexIsNone': 
               'leafKindFault': True, 'boolCoerced': True, 'utf8Fault': True, 'jsonNullDateOk': True,
               'intFromFloat': True, 'nativeKindFault': True, 'binKindFault': True, 'rawBytesKindFault': True, 'nestedArrayOk': True, 'parseErrorsFault': True, 'binTextValidated': True, 'missingBodyFault': True,
               'guardPathLocal': True, 'fileFormValidated': True, 'mpBoolPassThrough': [], 'tableUtf8Fault': True,
-              'bytesJoinBeforeEncode': True, 'retagSubclassChecked': True}
+              'bytesJoinBeforeEncode': True, 'retagSubclassChecked': True,
+              'notWrappedStrKeys': True, 'notWrappedBytesKeys': True, 'nonNumberForNumber': [], 'noFreqKeepsValidation': True, 'valuesNullTestIsNone': True}
 
 FACT_WHAT = {
     'occCount': 'D09: _doc_to_object counts one occurrence per key, not per item: 3 items pass max_occurs=2 and 2 items '
@@ -1398,6 +1424,19 @@ FACT_WHAT = {
                       'the caller\'s set instead of a copy): an object referenced from two sibling members is written once '
                       'and dropped the second time, an array that holds an object twice is written as null '
                       '(witness: Seg(start=p, end=p, more=[q, r, q]) as a JSON result)',
+    'valuesNullTestIsNone': 'the null branch of the `values` check of SimpleModel.validate_native tests falsiness instead of `is None`: a nillable '
+                            'type accepts the falsy value of its kind (the empty string, 0, 0.0, False) although it is not in the enumeration',
+    'noFreqKeepsValidation': 'for a class with validate_freq=False (novalidate_freq(), the self of @mrpc methods) soft validation is switched off '
+                             'for the whole subtree instead of skipping only the occurrence check: numbers / lists / objects reach user code '
+                             'where a (nested) Unicode member is declared, out-of-range and too long values are accepted',
+    'nonNumberForNumber': 'under soft validation a native document node that is no number (YAML timestamp / set / binary, MessagePack ext / '
+                          'timestamp / bin / map ...) reaches user code where Double or Decimal (plain or customized) is declared, or makes an '
+                          'exception escape: listed as proto:type:kind:what',
+    'notWrappedStrKeys': 'JsonDocument / YamlDocument (str keys branch of _complex_to_dict): a class customized not_wrapped=True is written inside '
+                         'its {ClassName: ...} wrapper when wrappers are kept',
+    'notWrappedBytesKeys': 'MessagePackDocument / MessagePackRpc (encoded keys branch of _complex_to_dict): a class customized not_wrapped=True '
+                           'is written inside its {b"ClassName": ...} wrapper when wrappers are kept, and the reader (which honours '
+                           'not_wrapped) no longer finds its members',
     'bytesJoinBeforeEncode': 'a ByteArray value given in several chunks is not encoded as the concatenation of its chunks (base64 chunk by '
                              'chunk puts "=" padding inside the text): the response does not decode to the returned bytes',
     'retagSubclassChecked': 'a wrapper key that names a class from the subclass list of the declared class is accepted without checking that it '
@@ -1443,7 +1482,8 @@ FACT_WITNESS = {
     'missingBodyFault': ([['a', {'k': 'int', 'occ': occ()}]], {}, {'f': None}),
 }
 # switches measured by a probe of their own (replayed by name)
-PROBE_FACTS = ('guardPathLocal', 'fileFormValidated', 'mpBoolPassThrough', 'tableUtf8Fault', 'bytesJoinBeforeEncode', 'retagSubclassChecked')
+PROBE_FACTS = ('guardPathLocal', 'fileFormValidated', 'mpBoolPassThrough', 'tableUtf8Fault', 'bytesJoinBeforeEncode', 'retagSubclassChecked',
+               'notWrappedStrKeys', 'notWrappedBytesKeys', 'nonNumberForNumber', 'noFreqKeepsValidation', 'valuesNullTestIsNone')
 
 
 PARSE_WITNESSES = [('yaml', b'a: b: c'), ('yaml', b'\x00'), ('yaml', b'*alias'), ('yaml', b'!!python/object:os.system {}'),
@@ -1576,6 +1616,7 @@ def _probe_chunks():
 
 
 INT_PLAIN = {'k': 'int', 'kind': 'unbounded', 'r': {}, 'occ': occ()}
+STR_PLAIN = {'k': 'str', 'minLen': 0, 'maxLen': None, 'pattern': None, 'values': [], 'occ': occ()}
 BOOL_PLAIN = {'k': 'bool', 'occ': occ()}
 
 
@@ -1622,8 +1663,89 @@ def _probe_retag():
     return bad
 
 
+NW_INNER = {'k': 'obj', 'name': 'NwInner', 'ns': TNS, 'base': None, 'occ': occ(), 'fields': [['y', INT_PLAIN]], 'nw': True}
+NW_PLAIN = {'k': 'obj', 'name': 'NwPlain', 'ns': TNS, 'base': None, 'occ': occ(), 'fields': [['z', INT_PLAIN]]}
+NW_OUTER = {'k': 'obj', 'name': 'NwOuter', 'ns': TNS, 'base': None, 'occ': occ(), 'nw': True,
+            'fields': [['inner', NW_INNER], ['plain', NW_PLAIN], ['x', INT_PLAIN]]}
+NW_WITNESS = {'o': ['NwOuter', [['inner', {'o': ['NwInner', [['y', {'i': '2'}]]]}], ['plain', {'o': ['NwPlain', [['z', {'i': '3'}]]]}], ['x', {'i': '1'}]]]}
+NW_EXPECTED = {'fResponse': {'fResult': {'inner': {'y': 2}, 'plain': {'NwPlain': {'z': 3}}, 'x': 1}}}
+
+
+def _probe_not_wrapped():
+    """a result of a class customized not_wrapped=True with a not_wrapped and an ordinary member, ignore_wrappers=False:
+    json (str keys branch of _complex_to_dict) and msgpack (encoded keys branch) -> {branch: response document}"""
+    B = Builder()
+    B.register([{'name': t['name'], 'ns': TNS, 'base': None, 'fields': t['fields']} for t in (NW_INNER, NW_PLAIN, NW_OUTER)])
+    impl = Impl(B, {'args': [], 'ret': NW_OUTER})
+    out = {}
+    for proto in ('json', 'msgpack'):
+        cfg = dict(CFG_DEFAULT, proto=proto, iw=False)
+        doc = {b'f': {b'f': {}}} if proto == 'msgpack' else {'f': {'f': {}}}
+        r = impl.run(cfg, dump(proto, doc), ret=B.native(NW_OUTER, NW_WITNESS))
+        out[proto] = _destr(load(proto, r['out'])) if r['out'] is not None and 'ok' in r['outcome'] else (r.get('resp_crash') or r['outcome'])
+    return out
+
+
+NF_INNER = {'k': 'obj', 'name': 'NfInner', 'ns': TNS, 'base': None, 'occ': occ(), 'fields': [['s', STR_PLAIN]]}
+NF_ACCOUNT = {'k': 'obj', 'name': 'NfAccount', 'ns': TNS, 'base': None, 'occ': occ(), 'nofreq': True,
+              'fields': [['inner', NF_INNER], ['n', dict(INT_PLAIN, kind='u8')], ['owner', dict(STR_PLAIN, maxLen=3)],
+                         ['tags', dict(STR_PLAIN, occ=occ(True, 2, 3))]]}
+NF_WITNESS_FAULT = [{'owner': 5}, {'owner': ['a']}, {'owner': 'toolong'}, {'n': 300}, {'n': 'x'}, {'inner': {'s': 5}}, {'inner': {'s': {'a': 1}}},
+                    {'tags': ['a', 7]}]
+NF_WITNESS_OK = [{'owner': 'abc', 'n': 255, 'tags': ['a', 'b']}, {'tags': ['a']}, {'tags': ['a', 'b', 'c', 'd']}, {}]
+
+
+def _probe_nofreq():
+    """f(self: NfAccount with validate_freq=False), soft: kind / facet violations (also in the nested object) have to be
+    refused; violations of min_occurs / max_occurs of its own members are let through -> {document: outcome} of what differs"""
+    B = Builder()
+    B.register([{'name': t['name'], 'ns': TNS, 'base': None, 'fields': t['fields']} for t in (NF_INNER, NF_ACCOUNT)])
+    B.universe_fields = {t['name']: t['fields'] for t in (NF_INNER, NF_ACCOUNT)}
+    impl = Impl(B, {'args': [['self', NF_ACCOUNT]], 'ret': INT_PLAIN})
+    bad = {}
+    for proto in ('json', 'yaml', 'msgpack'):
+        cfg = dict(CFG_DEFAULT, proto=proto, validator='soft')
+        for docs, want in ((NF_WITNESS_FAULT, 'fault'), (NF_WITNESS_OK, 'ok')):
+            for d in docs:
+                r = impl.run(cfg, dump(proto, {'f': {'self': d}}))
+                if want not in r['outcome']:
+                    bad['%s %s' % (proto, json.dumps(d))] = dict({k: (v if k != 'ok' else '...') for k, v in r['outcome'].items()}, what=r.get('leak'))
+    return bad
+
+
+VALUES_WITNESS = [([['v', dict(STR_PLAIN, values=[cps('a'), cps('bb')])]], {'v': ''}), ([['v', dict(INT_PLAIN, vals=['1', '2', '5'])]], {'v': 0}),
+                  ([['v', {'k': 'bool', 'occ': occ(), 'vals': [True]}]], {'v': False}), ([['v', {'k': 'dbl', 'occ': occ(), 'vals': ['1.5', '2.0']}]], {'v': 0.0})]
+
+
+def _probe_values_falsy():
+    """nillable types with a `values` enumeration that does not hold the falsy value of their kind ('' / 0 / False / 0.0), soft
+    validation: the falsy value has to be refused (it is not None), null has to be accepted -> what differs"""
+    bad = {}
+    for args, doc in VALUES_WITNESS:
+        B = Builder()
+        impl = Impl(B, {'args': args, 'ret': INT_PLAIN})
+        for proto in ('json', 'yaml', 'msgpack'):
+            cfg = dict(CFG_DEFAULT, proto=proto, validator='soft')
+            r = impl.run(cfg, dump(proto, {'f': doc}))
+            if 'fault' not in r['outcome']:
+                bad['%s %s <- %r' % (proto, args[0][1]['k'], doc['v'])] = r['outcome']
+            r = impl.run(cfg, dump(proto, {'f': {'v': None}}))
+            if r['outcome'] != {'ok': {'o': ['f', [['v', None]]]}}:
+                bad['%s %s <- None' % (proto, args[0][1]['k'])] = r['outcome']
+    return bad
+
+
 def measure_facts():
     f, obs = {}, {}
+    o = _probe_values_falsy()
+    f['valuesNullTestIsNone'], obs['valuesNullTestIsNone'] = o == {}, o
+    o = _probe_nofreq()
+    f['noFreqKeepsValidation'], obs['noFreqKeepsValidation'] = o == {}, o
+    o = _probe_number_kinds()
+    f['nonNumberForNumber'], obs['nonNumberForNumber'] = o, o
+    o = _probe_not_wrapped()
+    obs['notWrappedStrKeys'], obs['notWrappedBytesKeys'] = o['json'], o['msgpack']
+    f['notWrappedStrKeys'], f['notWrappedBytesKeys'] = o['json'] == NW_EXPECTED, o['msgpack'] == NW_EXPECTED
     o = _probe_retag()
     obs['retagSubclassChecked'] = o
     f['retagSubclassChecked'] = o == {}
@@ -1682,12 +1804,13 @@ def facts_lean(f):
     lines = ['  occCount := .%s' % f['occCount']]
     for k in ['mpNameAnyKey', 'nullComplexIsNone', 'repeatedScalarFault', 'leafKindFault', 'boolCoerced', 'utf8Fault',
               'jsonNullDateOk', 'intFromFloat', 'nativeKindFault', 'binKindFault', 'rawBytesKindFault', 'nestedArrayOk', 'binTextValidated', 'parseErrorsFault', 'missingBodyFault', 'guardPathLocal', 'fileFormValidated',
-              'bytesJoinBeforeEncode', 'retagSubclassChecked']:
+              'bytesJoinBeforeEncode', 'retagSubclassChecked', 'notWrappedStrKeys', 'notWrappedBytesKeys', 'noFreqKeepsValidation', 'valuesNullTestIsNone']:
         lines.append('  %s := %s' % (k, b(f[k])))
     pl = lambda l: '[' + ', '.join('(%s, %s)' % (b(x), b(y)) for x, y in l) + ']'
     lines.append('  mpBytesTable := %s' % pl(f['mpBytesTable']))
     lines.append('  mpBoolPassThrough := %s' % pl(f['mpBoolPassThrough']))
     lines.append('  tableUtf8Fault := %s' % b(f['tableUtf8Fault']))
+    lines.append('  nonNumberForNumber := [%s]' % ', '.join(json.dumps(x) for x in f['nonNumberForNumber']))
     return ('-- GENERATED by harness/hierblock.py (T1) from /repo on every run. Do not edit.\n'
             'import SpyneModel.Hier\nnamespace SpyneModel.Generated\nopen SpyneModel SpyneModel.Hier\n\n'
             'def facts02 : Facts02 where\n' + '\n'.join(lines) + '\n\nend SpyneModel.Generated\n')
@@ -1701,6 +1824,8 @@ SWITCH_PROPS = {
     'guardPathLocal': {'C02'}, 'fileFormValidated': {'C04'},
     'mpBoolPassThrough': {'C04', 'C05', 'C10'}, 'tableUtf8Fault': {'C04', 'C05', 'C10'},
     'bytesJoinBeforeEncode': {'C02'}, 'retagSubclassChecked': {'C04'},
+    'notWrappedStrKeys': {'C02'}, 'notWrappedBytesKeys': {'C02'}, 'nonNumberForNumber': {'C04', 'C05'},
+    'noFreqKeepsValidation': {'C04', 'C05'}, 'valuesNullTestIsNone': {'C05'},
 }
 
 
@@ -1716,10 +1841,16 @@ def t1(ctx):
                 wit = {'guardPathLocal': ALIAS_WITNESS, 'fileFormValidated': FILE_WITNESS_DOCS,
                        'mpBoolPassThrough': 'f(b: Boolean) <- {b"f": {b"b": w}} for w in %r, validator=soft, every (raw, use_bin_type)' % (BOOL_FOREIGN,),
                        'tableUtf8Fault': 'f(d: Date) <- {b"f": {b"d": b"\\xff\\xfe"}}, validator=soft, raw=True, use_bin_type=False',
-                       'bytesJoinBeforeEncode': CHUNK_WITNESS, 'retagSubclassChecked': RETAG_WITNESS_DOCS}[k]
+                       'bytesJoinBeforeEncode': CHUNK_WITNESS, 'retagSubclassChecked': RETAG_WITNESS_DOCS,
+                       'notWrappedStrKeys': NW_WITNESS, 'notWrappedBytesKeys': NW_WITNESS,
+                       'valuesNullTestIsNone': [[a[0][1], d] for a, d in VALUES_WITNESS],
+                       'noFreqKeepsValidation': {'type': NF_ACCOUNT, 'refused': NF_WITNESS_FAULT, 'accepted': NF_WITNESS_OK},
+                       'nonNumberForNumber': 'f(a: Double | Double(ge=..) | Decimal | Decimal(le=..), box: NumBox{the same}) <- every kind of number_foreign(proto), '
+                                             'yaml / msgpack / msgpackrpc, validator=soft'}[k]
                 ctx.finding('switch:%s=%s' % (k, f[k]), FACT_WHAT[k],
                             {'op': 'probe', 'fact': k, 'measured': f[k], 'observed': obs[k],
-                             'expected': {'guardPathLocal': ALIAS_EXPECTED, 'bytesJoinBeforeEncode': CHUNK_EXPECTED}.get(k, 'a Client fault for every document'),
+                             'expected': {'guardPathLocal': ALIAS_EXPECTED, 'bytesJoinBeforeEncode': CHUNK_EXPECTED, 'notWrappedStrKeys': NW_EXPECTED,
+                                          'notWrappedBytesKeys': NW_EXPECTED}.get(k, 'a Client fault for every document'),
                              'witness': wit})
                 continue
             args, cfg, doc = FACT_WITNESS[k][:3]
@@ -2066,7 +2197,12 @@ def part_c02(ctx, ncases=None, seed_cases=True):
     B_req, B_req_good, B_resp, B_mut = Batch(ctx), Batch(ctx), Batch(ctx), Batch(ctx)
     pending = []            # T3 argument failures waiting for the model's explanation
     for ci in range(ncases):
-        c = Case(rng, nclasses=rng.choice([2, 3, 4]), depth=rng.choice([2, 3, 4 if ctx.thorough else 3]))
+        if ci % 4 == 3:
+            # classes customized not_wrapped=True wherever they are used (arguments, results, members, array items)
+            c = Case(rng, nclasses=rng.choice([2, 3, 4]), depth=rng.choice([2, 3]), inherit=False, nw_p=0.6)
+        else:
+            c = Case(rng, nclasses=rng.choice([2, 3, 4]), depth=rng.choice([2, 3, 4 if ctx.thorough else 3]))
+        nwl = sorted(c.U.nw)
         names = [cd['name'] for cd in c.U.classes] + ['f']
         ret_ty = c.sig['ret']
         for vi in range(3):
@@ -2091,6 +2227,9 @@ def part_c02(ctx, ncases=None, seed_cases=True):
                 ctx.hit('chunked-bytes-in-result')
             nat = c.B.native(ret_ty, rv_sent)
             for cfg in ALL_CFGS:
+                if nwl:
+                    cfg = dict(cfg, nw=nwl)
+                    ctx.hit('not-wrapped-classes:%s' % ('wrappers-kept' if not cfg['iw'] else 'wrappers-ignored'))
                 if cfg['cas'] == 'list' and not fully_populated(args):
                     ctx.hit('skip:list-needs-fully-populated')
                     continue
@@ -3026,8 +3165,71 @@ def part_codec(ctx):
 
 
 # ---- leaf kinds outside the shared Lean vocabulary (Decimal, Double, Uuid): T3 only
+def number_foreign(proto):
+    """native kinds the parsers of YAML / MessagePack produce that are no numbers: {kind: python document node}"""
+    if proto == 'yaml':
+        return {'date': pydt.date(2001, 1, 1), 'datetime': pydt.datetime(2001, 1, 1, 2, 3, 4), 'set': {1}, 'bytes': b'12', 'bool': True,
+                'list': [1], 'map': {'a': 1}}
+    import msgpack
+    return {'ext': msgpack.ExtType(5, b'x'), 'timestamp': msgpack.Timestamp(1, 2), 'bytes': b'12', 'bool': True, 'tuple': (1, 2), 'map': {b'a': 1}}
+
+
+NUM_TYPES = [('Double', {'k': 'dbl', 'occ': occ()}), ('Double(ge=-1e9)', {'k': 'dbl', 'occ': occ(), 'rng': {'ge': {'dbl': '-1000000000.0'}}}),
+             ('Decimal', {'k': 'dec', 'occ': occ()}), ('Decimal(le=1e9)', {'k': 'dec', 'occ': occ(), 'rng': {'le': {'dec': '1E+9'}}})]
+
+
+def number_kind_runs(validators=('soft',)):
+    """every number type (plain and customized Double / Decimal) as argument and as nested member x every non-number native
+    kind x yaml / msgpack / msgpack-rpc: yields (proto, validator, type label, place, kind, result of Impl.run)"""
+    B = Builder()
+    box = {'name': 'NumBox', 'ns': TNS, 'base': None, 'fields': [['n%d' % i, t] for i, (_, t) in enumerate(NUM_TYPES)]}
+    B.register([box])
+    B.universe_fields = {'NumBox': box['fields']}
+    impl = Impl(B, {'args': [['a%d' % i, t] for i, (_, t) in enumerate(NUM_TYPES)] + [['box', dict(box, k='obj', occ=occ())]], 'ret': INT_PLAIN})
+    for proto in ('yaml', 'msgpack', 'msgpackrpc'):
+        mp = proto != 'yaml'
+        K = (lambda s_: s_.encode('utf8')) if mp else (lambda s_: s_)
+        for validator in validators:
+            cfg = dict(CFG_DEFAULT, proto=proto, validator=validator)
+            for i, (label, _) in enumerate(NUM_TYPES):
+                for kind, node in sorted(number_foreign(proto).items()):
+                    for place in ('argument', 'member'):
+                        body = {K('a%d' % i): node} if place == 'argument' else {K('box'): {K('n%d' % i): node}}
+                        doc = [0, 1, 'f', body] if proto == 'msgpackrpc' else {K('f'): body}
+                        yield proto, validator, label, place, kind, cfg, impl.run(cfg, dump(proto, doc))
+
+
+def _probe_number_kinds():
+    """[proto:type:kind] for which, under soft validation, something that is no number reaches user code (or an exception escapes)"""
+    bad = set()
+    for proto, validator, label, place, kind, cfg, r in number_kind_runs():
+        o = r['outcome']
+        if 'leak' in o or 'crash' in o:
+            bad.add('%s:%s:%s:%s' % (proto, label, kind, 'crash ' + o['crash'] if 'crash' in o else r.get('leak')))
+    return sorted(bad)
+
+
+def part_number_kinds(ctx):
+    """Double / Decimal (plain and customized): the native kinds of YAML / MessagePack that are no numbers (T3)"""
+    nk = 0
+    for proto, validator, label, place, kind, cfg, r in number_kind_runs((None, 'soft')):
+        nk += 1
+        o = r['outcome']
+        kd = next(iter(o))
+        ctx.case({'numkind': proto, 'v': validator, 't': label, 'place': place, 'kind': kind}, True)
+        ctx.hit('numkind:%s:%s:%s' % (label.split('(')[0], kind, kd))
+        if kd == 'crash' or (kd == 'leak' and validator == 'soft'):
+            ctx.finding('extra-leaf:number-kind:%s:%s:%s:%s' % ('msgpack' if proto != 'yaml' else proto, label, kind, kd),
+                        'a %s node where %s is declared (%s) %s' % (kind, label, place, 'raises %s (%s)' % (o.get('crash'), r.get('where')) if kd == 'crash'
+                                                                  else 'reaches user code under soft validation (%s)' % r.get('leak')),
+                        {'op': 'numkind', 'proto': proto, 'validator': validator, 'type': label, 'place': place, 'kind': kind,
+                         'observed': o, 'leak': r.get('leak'), 'where': r.get('where')})
+    ctx.cov['t3_number_kinds'] = nk
+
+
 def part_t3_extra_leaves(ctx):
     rng = ctx.rng
+    part_number_kinds(ctx)
     B = Builder()
     sig = {'args': [['d', {'k': 'dec', 'occ': occ()}], ['x', {'k': 'dbl', 'occ': occ()}], ['u', {'k': 'uuid', 'occ': occ()}],
                     ['i', {'k': 'int', 'kind': 'unbounded', 'r': {}, 'occ': occ()}]],
@@ -3161,7 +3363,10 @@ def replay(ctx, obj):
             bt, bp, ub, bobs = _probe_mp_tables()
             o = {'from_bytes table selected by (raw, use_bin_type)': bt, 'Boolean passed through': bobs, 'undecodable date bytes': ub}
         else:
-            o = {'guardPathLocal': _probe_alias, 'bytesJoinBeforeEncode': _probe_chunks, 'retagSubclassChecked': _probe_retag}.get(obj['fact'], _probe_file)()
+            o = {'guardPathLocal': _probe_alias, 'bytesJoinBeforeEncode': _probe_chunks, 'retagSubclassChecked': _probe_retag,
+                 'notWrappedStrKeys': _probe_not_wrapped, 'notWrappedBytesKeys': _probe_not_wrapped,
+                 'nonNumberForNumber': _probe_number_kinds, 'noFreqKeepsValidation': _probe_nofreq,
+                 'valuesNullTestIsNone': _probe_values_falsy}.get(obj['fact'], _probe_file)()
         print('witness :', json.dumps(obj.get('witness'))[:600])
         print('impl    :', o)
         print('expected:', obj.get('expected'))
@@ -3320,6 +3525,13 @@ def replay(ctx, obj):
         print('%s(..., %s):' % (api, args), out if not isinstance(out, bytes) else out[:400])
         print('recorded:', json.dumps(obj.get('back'))[:300])
         return 0
+    if op == 'numkind':
+        for proto, validator, label, place, kind, cfg, r in number_kind_runs((obj['validator'],)):
+            if (proto, label, place, kind) == (obj['proto'], obj['type'], obj['place'], obj['kind']):
+                print('f(%s ...), %s validator=%s: a %s node as %s' % (label, proto, validator, kind, place))
+                print('node   :', repr(number_foreign(proto)[kind]))
+                print('impl   :', r['outcome'], r.get('leak') or '', r.get('where') or '')
+        return 0
     if op == 'decdigits':
         c = FixedCase([['d', {'k': 'dec', 'td': obj['td'], 'fd': obj['fd'], 'occ': occ()}]])
         cfg = obj['cfg']
@@ -3335,10 +3547,10 @@ def replay(ctx, obj):
         cfg = obj['cfg']
         r = c.impl.run(cfg, dump(cfg['proto'], json_to_doc(obj['doc'])))
         print('type   :', obj['ty'])
-        print('value  :', obj['value'], '(UTC instant %s)' % _instant(obj['value']['dt']) if 'dt' in obj['value'] else '')
+        print('value  :', obj['value'], '(UTC instant %s)' % _instant(obj['value']['dt']) if obj['value'] and 'dt' in obj['value'] else '')
         print('bytes  :', dump(cfg['proto'], json_to_doc(obj['doc']))[:300])
         print('impl   :', r['outcome'], r.get('where'))
-        print('conforms (python oracle):', range_ok(obj['ty'], obj['value']))
+        print('conforms (python oracle):', obj.get('expected_conforms') if obj['ty'].get('vals') is not None else range_ok(obj['ty'], obj['value']))
         return 0
     if op == 'verdicts':
         print('verdicts per configuration (recorded):', obj.get('verdicts'))
@@ -3384,7 +3596,10 @@ def part_c04(ctx):
     B_mut = Batch(ctx)
     nleak = 0
     for ci in range(100 if ctx.thorough else 24):
-        c = Case(rng, nclasses=rng.choice([3, 4, 5]), depth=3, inherit=True)
+        # (every third universe: classes with validate_freq=False wherever they are used)
+        # (no inheritance there: a subclass selected by a wrapper key is the class itself, not the customized occurrence, and
+        # its own validate_freq applies -- the model attaches the flag to the class name)
+        c = Case(rng, nclasses=rng.choice([3, 4, 5]), depth=3, inherit=ci % 3 != 2, nf_p=0.5 if ci % 3 == 2 else 0.0)
         names = [cd['name'] for cd in c.U.classes] + ['f', 'Nope']
         for vi in range(2):
             args = c.gen_args(none_p=0.1)
@@ -3427,6 +3642,8 @@ def part_c04(ctx):
                                      'observed': r['outcome'], 'leak': r.get('leak')})
     B_mut.run('hier.request-retagged')
     part_c04_attrs(ctx)
+    part_c04_nofreq(ctx)
+    part_number_kinds(ctx)
     part_c04_leaves(ctx)
     part_c04_file(ctx)
     ctx.cov['c04_hier_rule'] = ('valid requests of generated signatures with inheritance x 32 configurations, each retagged with '
@@ -3506,6 +3723,86 @@ def part_c04_attrs(ctx):
                                  'X positions replaced by a whole S1 document')
 
 
+def part_c04_nofreq(ctx):
+    """a class with validate_freq=False (`novalidate_freq()`, the `self` of @mrpc methods) as argument, array item and nested
+    member: every leaf position below it x foreign document nodes / facet violations x the soft configurations. The
+    occurrence check of that class is skipped (model: `Cfg.noFreq`), everything else is validated."""
+    rng = ctx.rng
+    B_nf = Batch(ctx)
+    nleak = 0
+    acct = {k: v for k, v in NF_ACCOUNT.items()}
+    classes = [{'name': t['name'], 'ns': TNS, 'base': None, 'fields': t['fields']} for t in (NF_INNER, NF_ACCOUNT)]
+    holder = {'name': 'NfHolder', 'ns': TNS, 'base': None, 'fields': [['acct', acct], ['accts', {'k': 'arr', 'member': 'm', 'elem': dict(acct, occ=occ(True, 0, 1)), 'occ': occ()}]]}
+    classes.append(holder)
+    B = Builder()
+    B.register(classes)
+    B.universe_fields = {c['name']: c['fields'] for c in classes}
+    impl = Impl(B, {'args': [['hold', dict(holder, k='obj', occ=occ())], ['self', acct]], 'ret': INT_PLAIN})
+    in_ty = impl.in_ty()
+    cfgs = [dict(c, nofreq=['NfAccount']) for c in ALL_CFGS + MP_EXTRA_CFGS if c['validator'] == 'soft' and c['cas'] == 'dict']
+    good = lambda: {'inner': {'s': 'in'}, 'n': 7, 'owner': 'abc', 'tags': ['a', 'b']}
+    for cfg in cfgs:
+        mp = cfg['proto'].startswith('msgpack')
+
+        def enc(d):             # str keys -> the key kind of the protocol; wrappers where they are kept
+            if isinstance(d, dict):
+                return {(k.encode('utf8') if mp else k): enc(v) for k, v in d.items()}
+            if isinstance(d, list):
+                return [enc(x) for x in d]
+            return d
+        W = (lambda n, b: b) if cfg['iw'] else (lambda n, b: {n: b})
+        mk = lambda a: W('NfAccount', dict(a, inner=W('NfInner', a['inner'])) if 'inner' in a else a)
+        pool = [5, 0, 2.5, True, ['x'], [], {'a': 1}, {}, 'waytoolong', 300, -1, 'x', '']
+        for place in ('self', 'hold.acct', 'hold.accts[0]'):
+            for member in ('owner', 'n', 'inner.s', 'tags[1]', 'tags', 'absent:tags', 'absent:owner'):
+                for w in ([None] if member.startswith('absent') else pool):
+                    a = good()
+                    if member == 'owner':
+                        a['owner'] = w
+                    elif member == 'n':
+                        a['n'] = w
+                    elif member == 'inner.s':
+                        a['inner'] = {'s': w}
+                    elif member == 'tags[1]':
+                        a['tags'] = ['a', w]
+                    elif member == 'tags':
+                        a['tags'] = ['a', 'b', 'c', 'd', 'e'] if w == 5 else (['a'] if w == 0 else w)
+                    else:
+                        del a[member.split(':')[1]]
+                    body = {'self': mk(good()), 'hold': W('NfHolder', {'acct': mk(good()), 'accts': [mk(good())]})}
+                    if place == 'self':
+                        body['self'] = mk(a)
+                    elif place == 'hold.acct':
+                        body['hold'] = W('NfHolder', {'acct': mk(a), 'accts': [mk(good())]})
+                    else:
+                        body['hold'] = W('NfHolder', {'acct': mk(good()), 'accts': [mk(a)]})
+                    body = W('f', body)
+                    doc = enc([0, 1, 'f', body] if cfg['proto'] == 'msgpackrpc' else {'f': body} if cfg['iw'] else body)
+                    if cfg['proto'] == 'msgpackrpc':
+                        doc[2] = 'f'
+                    try:
+                        data = dump(cfg['proto'], doc)
+                        parsed = load_as_server(cfg, data)
+                    except Exception:
+                        continue
+                    r = impl.run(cfg, data)
+                    kind = next(iter(r['outcome']))
+                    fam = 'msgpack' if mp else cfg['proto']
+                    ctx.case({'c04nofreq': cfg_key(cfg), 'place': place, 'member': member, 'w': repr(w)}, True)
+                    ctx.hit('c04:nofreq:%s:%s' % (member.split('[')[0].split(':')[0], kind))
+                    pb, okb = request_body(cfg, parsed)
+                    if okb and spyne_parses(cfg, data):
+                        B_nf.add({'op': 'request', 'cfg': cfg, 'reg': classes, 'ty': in_ty, 'doc': doc_to_json(pb)}, r['outcome'])
+                    if kind == 'leak':
+                        nleak += 1
+                        ctx.finding('c04:leak:nofreq:%s:%s' % (fam, r.get('leak', '?')),
+                                    'below a class with validate_freq=False user code received a node that is not a value of the declared type (%s)' % r.get('leak'),
+                                    {'op': 'request', 'cfg': cfg, 'ty': in_ty, 'reg': classes, 'doc': doc_to_json(doc), 'observed': r['outcome'],
+                                     'leak': r.get('leak'), 'place': place, 'member': member})
+    B_nf.run('hier.request-nofreq')
+    ctx.cov['c04_nofreq_leaks_under_soft'] = nleak
+
+
 def part_c04_leaves(ctx):
     """every leaf kind x every foreign document kind x the soft-validating configurations incl. the MessagePack
     constructor matrix (raw, use_bin_type), at an argument, an array item and a nested member"""
@@ -3572,7 +3869,6 @@ def part_c04_leaves(ctx):
 
 
 # ---- File (outside the shared type universe: T3 on the real pipeline, T2 for the object form through `FileValue`)
-STR_PLAIN = {'k': 'str', 'minLen': 0, 'maxLen': None, 'pattern': None, 'values': [], 'occ': occ()}
 FILE_VALUE_DEF = {'name': 'FileValue', 'ns': 'spyne.model.binary', 'base': None,
                   'fields': [['name', STR_PLAIN], ['type', STR_PLAIN], ['data', {'k': 'bytes', 'enc': 'base64', 'occ': occ()}]]}
 
@@ -3800,6 +4096,8 @@ def violate(rng, t, v, field=True):
             while any(lo <= bad <= hi for lo, hi in t['pattern']['ranges']):
                 bad += 1
             return {'s': ([bad] + s[1:]) if s else [bad]}, 'pattern'
+        if [] not in [list(x) for x in t['values']] and rng.random() < 0.5:
+            return {'s': []}, 'values-falsy'            # the empty string: falsy, not null, not in the enumeration
         return {'s': cps('not-a-value')}, 'values'
     if k == 'date':
         return {'date': rng.choice([[2021, 2, 29], [2020, 13, 1], [2020, 0, 10], [2020, 4, 31], [0, 1, 1]])}, 'date-lexical'
@@ -3898,6 +4196,10 @@ def c05_verdicts(ctx, c, args, what, B_req, B_conf):
         B_req.add(c.query('request', cfg, ty=c.in_ty, doc=doc_to_json(body)), r['outcome'])
         kind = next(iter(r['outcome']))
         accepted = kind in ('ok', 'leak')
+        if getattr(c.U, 'nf', None) and what in ('max_occurs', 'min_occurs'):
+            # classes with validate_freq=False skip exactly this check for their own members: T2 only
+            ctx.hit('c05:nofreq-universe:occurrence-violation:%s' % kind)
+            continue
         if cfg0.get('_extra'):
             # non-default (raw, use_bin_type): what such a server can read at all differs (raw=True hands MessagePackRpc
             # every str as bytes; only the from_bytes table reads dates from bytes), so only one direction is judged here:
@@ -3940,7 +4242,7 @@ def part_c05(ctx):
     rng = ctx.rng
     B_req, B_conf = Batch(ctx), Batch(ctx)
     for ci in range(120 if ctx.thorough else 30):
-        c = Case(rng, nclasses=rng.choice([2, 3]), depth=3, inherit=False)
+        c = Case(rng, nclasses=rng.choice([2, 3]), depth=3, inherit=False, nf_p=0.6 if ci % 3 == 2 else 0.0)
         for vi in range(3):
             args = c.gen_args(none_p=rng.choice([0.0, 0.2]))
             if args is None:
@@ -3975,8 +4277,11 @@ def part_c05(ctx):
                  dict(STR_PLAIN, values=[cps('abc'), cps('b')]),
                  dict(STR_PLAIN, minLen=1, maxLen=4),
                  dict(STR_PLAIN, minLen=3, maxLen=None)]
-    for st in str_types:
-        c = FixedCase([['s', dict(st, occ=occ(False, 1, 1))]])
+    for st in str_types + [dict(x, _nillable=True) for x in str_types]:
+        nil = st.pop('_nillable', False)
+        c = FixedCase([['s', dict(st, occ=occ(True, 0, 1) if nil else occ(False, 1, 1))]])
+        # the falsy value of the kind: not null, and (for these facets) not a member unless the bounds allow the empty string
+        c05_verdicts(ctx, c, {'o': ['f', [['s', {'s': []}]]]}, 'values-falsy' if st.get('values') else 'str-empty', B_req, B_conf)
         for member in (cps('abc'), cps('b')):
             c05_verdicts(ctx, c, {'o': ['f', [['s', {'s': member}]]]}, None, B_req, B_conf)
             for e in STR_EDGES:
@@ -4104,6 +4409,48 @@ def part_c05_ranges(ctx):
                                                               'dec': 'Decimal', 'dbl': 'Double'}[k]),
                                         {'op': 'range', 'cfg': cfg, 'ty': t, 'value': v, 'expected_conforms': expected,
                                          'observed': r['outcome'], 'doc': doc_to_json(doc)})
+    # ---- `values` enumerations on numbers and booleans (the shared PrimTy has them on strings only): members, non-members,
+    # the falsy non-member of the kind, null; nillable and not
+    for t0, members, others in (({'k': 'int', 'kind': 'unbounded', 'r': {}, 'vals': ['1', '2', '5']}, [{'i': '1'}, {'i': '5'}], [{'i': '0'}, {'i': '3'}, {'i': '-1'}]),
+                                ({'k': 'int', 'kind': 'i8', 'r': {}, 'vals': ['0', '7']}, [{'i': '0'}, {'i': '7'}], [{'i': '1'}]),
+                                ({'k': 'bool', 'vals': [True]}, [{'b': True}], [{'b': False}]),
+                                ({'k': 'dbl', 'vals': ['1.5', '2.0']}, [{'dbl': '1.5'}, {'dbl': '2.0'}], [{'dbl': '0.0'}, {'dbl': '3.25'}]),
+                                ({'k': 'dec', 'vals': ['1.5', '10']}, [{'dec': '1.5'}, {'dec': '10'}], [{'dec': '0'}, {'dec': '0.0'}, {'dec': '3'}])):
+        for nil in (True, False):
+            t = dict(t0, occ=occ(nil, 0 if nil else 1, 1))
+            try:
+                c = FixedCase([['v', t]])
+                c.impl.server(CFG_DEFAULT)
+            except (ValueError, AssertionError, TypeError):
+                ctx.hit('c05:values:type-refused:' + t['k'])
+                continue
+            for v, expected in [(m, True) for m in members] + [(x, False) for x in others] + [(None, nil)]:
+                args = {'o': ['f', [['v', v]]]}
+                for cfg in C05_CFGS:
+                    if v is None:
+                        mpk = cfg['proto'].startswith('msgpack')
+                        key = (lambda s_: s_.encode('utf8')) if mpk else (lambda s_: s_)
+                        body = {key('v'): None}
+                        body = body if cfg['iw'] else {key('f'): body}
+                        doc = [0, 1, 'f', body] if cfg['proto'] == 'msgpackrpc' else ({key('f'): body} if cfg['iw'] else body)
+                    else:
+                        doc = ref_request(cfg, 'f', c.in_ty, args, None, bytes_keys=cfg['proto'].startswith('msgpack'))
+                    r = c.impl.run(cfg, dump(cfg['proto'], doc))
+                    kind = next(iter(r['outcome']))
+                    n += 1
+                    ctx.case({'c05values': cfg_key(cfg), 'ty': t, 'v': v}, True)
+                    ctx.hit('c05:values:%s:%s:%s' % (t['k'], 'in' if expected else 'out', kind))
+                    if kind == 'crash':
+                        continue
+                    accepted = kind in ('ok', 'leak')
+                    if accepted != expected:
+                        fam = 'msgpack' if cfg['proto'].startswith('msgpack') else cfg['proto']
+                        falsy = v is not None and list(v.values())[0] in ('0', '0.0', False)
+                        ctx.finding('c05:%s:values%s:%s:%s' % ('accepted-nonconformant' if accepted else 'rejected-conformant',
+                                                             '-falsy' if falsy else '', t['k'], fam),
+                                    'soft validation verdict differs from the declared `values` enumeration of a %s member' % t['k'],
+                                    {'op': 'range', 'cfg': cfg, 'ty': t, 'value': v, 'expected_conforms': expected,
+                                     'observed': r['outcome'], 'doc': doc_to_json(doc)})
     ctx.cov['c05_range_facets_T3_only'] = n
     ctx.cov['c05_range_rule'] = ('Date / Time / DateTime / Decimal / Double x ge, gt, le, lt (single and paired) x values on, just inside and '
                                  'just outside each bound; DateTime as instants with offsets None/0/+-60/+-300/+330/+840/-720; 8 soft '
